@@ -55,12 +55,14 @@ def batches(tier):
             {"name": "loop", "runs": 1400, "weight": 4},
             {"name": "space", "runs": 500, "weight": 2, "seed_offset": 100000},
             {"name": "history", "runs": 900, "weight": 3, "seed_offset": 200000},
+            {"name": "shift", "runs": 500, "weight": 2, "seed_offset": 300000},
         ]
     return [
         {"name": "loop", "runs": 30000, "weight": 4},
         {"name": "loop-wide", "runs": 4000, "weight": 3, "seed_offset": 50000},
         {"name": "space", "runs": 10000, "weight": 2, "seed_offset": 100000},
         {"name": "history", "runs": 20000, "weight": 4, "seed_offset": 200000},
+        {"name": "shift", "runs": 10000, "weight": 2, "seed_offset": 300000},
     ]
 
 
@@ -112,8 +114,16 @@ def generate(seed, tier, batch):
     # the leading mode of every band is measured, in band order, as the last commands of the bin
     for j in range(nb):
         ops.append({"op": "MeasureHomodyne", "p": [par(3.0)], "m": [starts[j]]})
-    script = {"N": N, "T": T, "params": params, "ops": ops, "tape": seed, "history": [], "kind": batch if batch != "loop-wide" else "loop"}
-    if batch in ("loop", "loop-wide"):
+    script = {"N": N, "T": T, "params": params, "ops": ops, "tape": seed, "history": [], "kind": batch if batch != "loop-wide" else "loop",
+              "shift": "default" if (nb > 1 or r.random() < 0.6) else 1}
+    if batch == "shift":
+        # any integer shift (whole-register rotation): the joint state of the pulses is checked; the arrangement of the returned samples is
+        # the listed finding KF-C13-int-shift-samples and is not looked at here
+        script["shift"] = min(total, r.choice([1, 2, 2, 3, total])) if total > 1 else 1
+        script["kind"] = "loop"
+        script["skip_samples"] = True
+        script["final"] = {"shots": r.choice([1, 2]), "space_unroll": False, "crop": False}
+    elif batch in ("loop", "loop-wide"):
         script["final"] = {"shots": r.choice([1, 1, 2, 3]), "space_unroll": False, "crop": False}
     elif batch == "space":
         script["final"] = r.choice([{"shots": None, "space_unroll": True, "crop": False}, {"shots": None, "space_unroll": True, "crop": True}])
@@ -155,7 +165,7 @@ def build_tdm(script):
     from strawberryfields import ops as sfops
 
     prog = sf.TDMProgram(N=script["N"] if len(script["N"]) > 1 else script["N"][0])
-    with prog.context(*script["params"]) as (p, q):
+    with prog.context(*script["params"], shift=script.get("shift", "default")) as (p, q):
         for o in script["ops"]:
             ps = [p[e["tdm"]] if isinstance(e, dict) else e for e in o["p"]]
             op = getattr(sfops, o["op"])(*ps)
@@ -163,46 +173,63 @@ def build_tdm(script):
     return prog
 
 
+def rotate_positions(pos, N, shift):
+    """the register shift at the end of a time bin: 'default' rotates every band separately by one, an integer rotates the whole register"""
+    if shift == "default":
+        out = []
+        k = 0
+        for n_ in N:
+            band = pos[k:k + n_]
+            out += band[1:] + band[:1]
+            k += n_
+        return out
+    sh = int(shift) % len(pos) if len(pos) else 0
+    return pos[sh:] + pos[:sh]
+
+
+def register_schedule(script, nbins):
+    """which library register holds each measured position in each bin: list over bins of {op index: register}"""
+    N = script["N"]
+    regs = list(range(sum(N)))
+    out = []
+    for g in range(nbins):
+        out.append({j: regs[o["m"][0]] for j, o in enumerate(script["ops"]) if o["op"] == "MeasureHomodyne"})
+        regs = rotate_positions(regs, N, script.get("shift", "default"))
+    return out
+
+
 def reference(script, nbins, rotate=True):
-    """queue model -> plain Program with a fresh mode per pulse; returns (program, pulses) with pulses[(band, g)] = mode"""
+    """explicit loop written out by hand: a list of mode ids by register position; per bin the commands act on the modes at their
+    positions, a measured mode is replaced by a fresh vacuum mode (that is what a destructive measurement + reset is), then the
+    positions are rotated by the shift.  Returns (plain Program, pulses[(measurement slot, global bin)] = mode id, number of modes)"""
     import strawberryfields as sf
     from strawberryfields import ops as sfops
 
     N, T = script["N"], script["T"]
-    nb = len(N)
     total = sum(N)
-    nmodes = total + nbins * nb
+    meas_slots = [j for j, o in enumerate(script["ops"]) if o["op"] == "MeasureHomodyne"]
+    nmodes = total + nbins * len(meas_slots)
     ref = sf.Program(nmodes)
-    queues = []
-    nxt = 0
-    for j in range(nb):
-        queues.append(list(range(nxt, nxt + N[j])))
-        nxt += N[j]
-    starts = [sum(N[:j]) for j in range(nb)]
+    pos = list(range(total))
+    nxt = total
     pulses = {}
-
-    def reg_of(m):
-        j = max(jj for jj in range(nb) if starts[jj] <= m)
-        return queues[j][m - starts[j]]
-
     with ref.context as q:
         for g in range(nbins):
             t = g % T
-            for o in script["ops"]:
+            for j, o in enumerate(script["ops"]):
                 ps = [script["params"][e["tdm"]][t] if isinstance(e, dict) else e for e in o["p"]]
                 if o["op"] == "MeasureHomodyne":
-                    j = starts.index(o["m"][0])
-                    m = reg_of(o["m"][0])
+                    m = pos[o["m"][0]]
                     if rotate:
                         sfops.Rgate(-ps[0]) | q[m]
-                    pulses[(j, g)] = m
+                    pulses[(meas_slots.index(j), g)] = m
+                    pos[o["m"][0]] = nxt  # measured and reset: a fresh vacuum mode takes its place
+                    nxt += 1
                     continue
-                regs = [q[reg_of(m)] for m in o["m"]]
+                regs = [q[pos[m]] for m in o["m"]]
                 op = getattr(sfops, o["op"])(*ps)
                 op | tuple(regs) if len(regs) > 1 else op | regs[0]
-            for j in range(nb):
-                queues[j] = queues[j][1:] + [nxt]
-                nxt += 1
+            pos = rotate_positions(pos, N, script.get("shift", "default"))
     return ref, pulses, nmodes
 
 
@@ -235,12 +262,19 @@ def execute(script, w):
         else:
             ctx["cur"] = None
 
+    sched = register_schedule(script, nbins)
+    meas_slots = [j for j, o in enumerate(script["ops"]) if o["op"] == "MeasureHomodyne"]
+    by_reg = {}
+    for g, d_ in enumerate(sched):
+        for j in meas_slots:
+            by_reg.setdefault(d_[j], []).append((meas_slots.index(j), g))
+
     def pulse_of(reg, kcount):
-        """(band, global bin) of the kcount-th measurement of register `reg`"""
+        """(measurement slot, global bin) of the kcount-th measurement of register `reg`"""
         if final["space_unroll"]:
             return (0, reg)  # single band: pulse of bin b sits in register b
-        j = max(jj for jj in range(nb) if starts[jj] <= reg)
-        return (j, (reg - starts[j]) + kcount * N[j])
+        lst = by_reg.get(reg, [])
+        return lst[kcount] if kcount < len(lst) else (-1, -1)
 
     def handler(name, args, kwargs, native):
         cur = ctx["cur"]
@@ -319,9 +353,15 @@ def execute(script, w):
                         feats + (["history"] if script["history"] else []))
             return
         except Exception as ex:  # noqa
-            w.violation("history" if script["history"] else "loop", "run-raises", {"exc": type(ex).__name__, "msg": str(ex)[:300], "history": script["history"], "final": final},
-                        feats + (["history"] if script["history"] else []))
-            return
+            import traceback as _tb
+            in_reshape = any(f.name in ("reshape_samples", "_get_mode_order") for f in _tb.extract_tb(ex.__traceback__))
+            if script.get("skip_samples") and in_reshape and isinstance(ex, (IndexError, KeyError)):
+                w.probes["int_shift_reshape_raises_known_finding"] += 1
+                res = None  # all measurements have been made; only the arrangement of the samples failed
+            else:
+                w.violation("history" if script["history"] else "loop", "run-raises", {"exc": type(ex).__name__, "msg": str(ex)[:300], "history": script["history"], "final": final},
+                            feats + (["history"] if script["history"] else []))
+                return
         ctx["observing"] = False
         hist_feats = feats + (["history"] if script["history"] else [])
 
@@ -394,6 +434,10 @@ def execute(script, w):
                 ccov = (ccov + ccov.T) / 2
                 ncond += 1
                 maxval = max(maxval, abs(e["v"]))
+            if script.get("skip_samples"):
+                w.probes["pulses_checked_integer_shift"] += nbins * nb
+                w.nontrivial.add(hashlib.sha256(json.dumps(script, sort_keys=True).encode()).hexdigest()[:16])
+                return
             # oracle 4: samples[shot, band, bin] is the outcome of exactly that pulse
             smp = np.asarray(res.samples)
             hb = math.sqrt(sf.hbar / 2)
@@ -466,6 +510,8 @@ def features(script, v):
         sampled_in_space = True
     if sampled_in_space:
         f.append("sampling-in-space-unrolled-form")
+    if script.get("shift", "default") not in ("default", 1) or (script.get("shift", "default") == 1 and len(script["N"]) > 1):
+        f.append("integer-shift-other-than-one-band-step")
     if script["final"].get("space_unroll"):
         f.append("final-space-unroll")
     if (script["final"].get("shots") or 1) > 1:
